@@ -166,21 +166,52 @@ def a_shards(tier, seed, backends=('cudd',), classes=('A1', 'A2', 'A3')):
     return out
 
 
+def a_lists(tier, seed, rabin):
+    """Lists of persistence / recurrence predicates (masks over (x, y)).
+
+    Singles and pairs, so that "all numbers of predicates" is exercised;
+    constants that trivialise the objective are kept to one each.
+    """
+    if tier == 'thorough':
+        six = [0b1100, 0b1010, 0b0110, 0b0010, 0b0100, 0b1001]
+        P = [[m] for m in range(16)] + \
+            [list(c) for c in itertools.combinations(six, 2)] + \
+            [[0b0010, 0b0100, 0b1000]]
+        G = [[m] for m in range(16)] + \
+            [list(c) for c in itertools.combinations(six[:4], 2)] + \
+            [[0b1100, 0b0011, 0b0110]]
+        return P, G
+    a, b = _PAIRS[seed % len(_PAIRS)]
+    c, d = _PAIRS[(seed + 3) % len(_PAIRS)]
+    e = _PAIRS[(seed + 5) % len(_PAIRS)][0]
+    if rabin:
+        P = [[15], [a], [b], [a, b], [b, c], [d, 0]]
+        G = [[15], [c], [d, e]]
+    else:
+        P = [[0], [a], [a, b], [b, d]]
+        G = [[15], [c], [d], [c, e], [d, a]]
+    return P, G
+
+
 def a_games(shard, rabin=False, modes=MODES):
-    """Game cases of a family-A shard (all P, G of the tier's menus)."""
+    """Game cases of a family-A shard (all P, G lists of the tier's menus)."""
     cls = shard['fam']
     evars, svars = A_CLASSES[cls]
-    pm = shard.get('Pmenu') or a_pred_menu(shard['tier'], shard['seed'], 0)
-    gm = shard.get('Gmenu') or a_pred_menu(shard['tier'], shard['seed'], 1)
+    if shard.get('Pmenu'):
+        Pl = [[m] for m in shard['Pmenu']]
+        Gl = [[m] for m in shard['Gmenu']]
+    else:
+        Pl, Gl = a_lists(shard['tier'], shard['seed'], rabin)
     for s in shard['S']:
-        for p in pm:
-            for g in gm:
+        for P in Pl:
+            for G in Gl:
                 for moore, plus_one in modes:
                     c = dict(A_DECL)
                     c.update(
                         fam=cls, backend=shard['backend'],
                         E=['tt', evars, shard['E']], S=['tt', svars, s],
-                        P=[['tt', ['x', 'y'], p]], G=[['tt', ['x', 'y'], g]],
+                        P=[['tt', ['x', 'y'], p] for p in P],
+                        G=[['tt', ['x', 'y'], g] for g in G],
                         moore=moore, plus_one=plus_one, rabin=rabin)
                     yield c
 
@@ -307,10 +338,6 @@ def game_shards(tier, seed, autoref='A1'):
     sh = a_shards(tier, seed) + b_shards(tier, seed)
     if tier == 'thorough':
         extra = a_shards('quick', seed, backends=('autoref',))
-        for s in extra:
-            s['Pmenu'] = a_pred_menu('quick', seed, 0)
-            s['Gmenu'] = a_pred_menu('quick', seed, 1)
-            s['tier'] = 'thorough'
         sh += extra + b_shards('quick', seed, backends=('autoref',))
     else:
         sh += a_shards(tier, seed, backends=('autoref',), classes=('A1',))
@@ -358,7 +385,10 @@ def scope_text(tier, seed):
         familyA='x Boolean env, y Boolean component; classes A1 E(x,x\')/S(y,y\'), '
                 'A2 E(y,x\')/S(x\',y\'), A3 E(x\',y\')/S(x,y\'); all 16x16 '
                 'function pairs per class',
-        P_menu=a_pred_menu(tier, seed, 0), G_menu=a_pred_menu(tier, seed, 1),
+        P_lists_streett=a_lists(tier, seed, False)[0],
+        G_lists_streett=a_lists(tier, seed, False)[1],
+        P_lists_rabin=a_lists(tier, seed, True)[0],
+        G_lists_rabin=a_lists(tier, seed, True)[1],
         familyB={k: dict(env=v['env'], sys=v['sys'], const=v['const'],
                          nE=len(v['E']), nS=len(v['S']))
                  for k, v in B_SHAPES.items()},
